@@ -80,7 +80,7 @@ def run_demo(pid, n, release):
         rc, out = sh("cargo build --manifest-path %s/Cargo.toml --offline -q %s -p yarel-cli >/dev/null 2>&1; cargo run --manifest-path %s/Cargo.toml --offline -q %s -p yarel-cli -- demo%d.yl 2>/dev/null" % (
             WT, prof, WT, prof, n), cwd=d, timeout=600)
         exp = open("%s/demo%d.expected" % (d, n)).read()
-        ok = matches(out, exp)
+        ok = matches(out, exp) and rc not in (101, 134, 139)      # a panic / abort / segfault never counts as passing
         return ok, "exit=%d\n%s" % (rc, out[-1500:])
     if os.path.exists("%s/demo%d.repl" % (d, n)):
         rc, out = sh("cargo run --offline -q %s -p yarel-cli < %s/demo%d.repl 2>&1; echo \"exit status: $?\"" % (prof, d, n), cwd=WT, timeout=600)
